@@ -2,6 +2,8 @@ package nfa
 
 import (
 	"regexp/syntax"
+	"unicode"
+	"unicode/utf8"
 )
 
 // FirstByteSet represents the set of bytes that can start a match.
@@ -76,23 +78,39 @@ func extractFirstBytesRecursive(re *syntax.Regexp, result *FirstByteSet, depth i
 		if len(re.Rune) == 0 {
 			return false // Empty literal matches empty string
 		}
+		// The first byte of the first rune; for a case-insensitive literal, of every rune in its
+		// case-folding orbit. A rune above U+007F starts with its UTF-8 lead byte, not with itself.
 		r := re.Rune[0]
-		if r > 255 {
-			return false // Non-ASCII, too complex
+		orbit := []rune{r}
+		if re.Flags&syntax.FoldCase != 0 {
+			for f := unicode.SimpleFold(r); f != r; f = unicode.SimpleFold(f) {
+				orbit = append(orbit, f)
+			}
 		}
-		result.bytes[byte(r)] = true
-		result.count++
+		for _, m := range orbit {
+			var buf [utf8.UTFMax]byte
+			utf8.EncodeRune(buf[:], m)
+			if !result.bytes[buf[0]] {
+				result.bytes[buf[0]] = true
+				result.count++
+			}
+		}
 		return true
 
 	case syntax.OpCharClass:
 		// Character class: add all bytes in the class
 		for i := 0; i < len(re.Rune); i += 2 {
 			lo, hi := re.Rune[i], re.Rune[i+1]
-			if hi > 255 {
-				hi = 255 // Truncate to ASCII
-			}
-			if lo > 255 {
-				continue // Skip non-ASCII ranges
+			if hi > 0x7F {
+				// Members above U+007F are multi-byte in UTF-8: any byte >= 0x80 may start them
+				// (a superset keeps the rejection filter sound).
+				for b := 0x80; b <= 0xFF; b++ {
+					if !result.bytes[b] {
+						result.bytes[b] = true
+						result.count++
+					}
+				}
+				hi = 0x7F
 			}
 			for r := lo; r <= hi; r++ {
 				if !result.bytes[byte(r)] {
